@@ -159,8 +159,8 @@ def get_content_type_contract():
     cl = Clause("override-consulted-before-classification", post,
                 statement="result == classify(content_type_overrides.get(content_type, content_type)): the override is looked "
                           "up on the document's own string, the result is the parsed type of the effective string or None if "
-                          "that does not parse", props=["C16", "C03"])
-    return FnContract("openapi_python_client.utils:get_content_type", [Case("any", make, [cl], raises=(), props=["C16", "C03"])])
+                          "that does not parse", props=["C16", "C03", "C04"])
+    return FnContract("openapi_python_client.utils:get_content_type", [Case("any", make, [cl], raises=(), props=["C16", "C03", "C04"])])
 
 
 def class_from_string_contract():
